@@ -98,9 +98,22 @@ def scenarios(tier):
     return S
 
 
+def pick(cfg, hints):
+    """Action-map indices of the first entry matching each (action type, substring of its options) hint."""
+    blue = [a for a in cfg["agents"] if a["type"] == "proxy-agent"][0]
+    amap = blue["action_space"]["action_map"]
+    out = []
+    for nm, hint in hints:
+        for i in sorted(amap):
+            if amap[i]["action"] == nm and hint in str(amap[i].get("options")) and i not in out:
+                out.append(i)
+                break
+    return out
+
+
 def make_adapter(name, cfg, p, oracles):
     ad = Adapter("c01-%s-%s" % (name, "k%d" % p.get("k", 0) if "H" in p else "bfs"), cfg, oracles,
-                 init_reset_seed=p.get("reset_seed", 3),
+                 init_reset_seed=p.get("reset_seed", 3), alphabet=pick(cfg, p["hints"]) if p.get("hints") else None,
                  dev_alphabet=core_alphabet(cfg, p.get("core_names")) if p.get("core") else None,
                  extra_params={"scenario_name": name, "p": {k: v for k, v in p.items()}})
     if p.get("multi_reset"):
@@ -118,6 +131,8 @@ def make_adapter(name, cfg, p, oracles):
 def _cfg_for(name):
     if name.endswith("-long"):
         name = name[:-5]
+    if name.endswith("-fs2"):
+        name = name[:-4]
     for v in HE.GEN:
         if name == v["name"] or name == v["name"] + "-k2":
             return HE.gen_scenario(v)
